@@ -94,7 +94,11 @@ def render_decls(decls, lay, depth, out):
         elif k == "const":
             out.append("%sconst %s = %s%s" % (pad, d["name"], expr_text(d["v"]), sm))
         elif k == "alias":
-            out.append("%stype %s = %s%s" % (pad, d["name"], type_text(d["t"]), sm))
+            if d.get("typedef"):
+                # the deprecated spelling (a syntax warning on stderr, same meaning)
+                out.append("%stypedef %s %s%s" % (pad, type_text(d["t"]), d["name"], sm))
+            else:
+                out.append("%stype %s = %s%s" % (pad, d["name"], type_text(d["t"]), sm))
         elif k == "enum":
             out.append("%senum %s : uint%d {" % (pad, d["name"], d["n"]))
             render_decls(d["body"], lay, depth + 1, out)
